@@ -35,6 +35,8 @@ def _str_or_bytes(k):
 
 @st.composite
 def cases(draw):
+    op = draw(st.sampled_from(OPS))  # decisive choices first (late draws are pinned to their first option for a share of the examples)
+    i, j, tuple_el = draw(st.integers(0, 7)), draw(st.integers(0, 7)), draw(st.booleans())
     ka = draw(st.sampled_from(KINDS))
     kb = draw(st.sampled_from(KINDS))
     if {_str_or_bytes(ka), _str_or_bytes(kb)} == {'str', 'bytes'}:
@@ -42,8 +44,7 @@ def cases(draw):
     n = draw(st.integers(1, 4))
     a = draw(st.lists(gen.elements(ka, missing=True, boundary=True), min_size=n, max_size=n))
     b = draw(st.lists(gen.elements(kb, missing=True, boundary=True), min_size=n, max_size=n))
-    return {'op': draw(st.sampled_from(OPS)), 'ka': ka, 'kb': kb, 'a': gen.to_array(ka, a), 'b': gen.to_array(kb, b),
-            'i': draw(st.integers(0, 7)), 'j': draw(st.integers(0, 7)), 'tuple_el': draw(st.booleans())}
+    return {'op': op, 'ka': ka, 'kb': kb, 'a': gen.to_array(ka, a), 'b': gen.to_array(kb, b), 'i': i, 'j': j, 'tuple_el': tuple_el}
 
 
 def _el(arr, i):
@@ -426,8 +427,9 @@ def iter_cases(draw):
     pool_f = st.sampled_from([x for x in ITER_POOL if type(x) in (float, complex)])
     pool_o = st.sampled_from([x for x in ITER_POOL if type(x) not in (int, float, complex)])
     el = st.one_of(pool_i, pool_i, pool_i, pool_f, pool_f, pool_o)
+    route = draw(st.sampled_from(ITER_ROUTES))
     elems = draw(st.lists(el, min_size=2, max_size=6))
-    return {'elems': elems, 'route': draw(st.sampled_from(ITER_ROUTES)), 'op': 'iter'}
+    return {'elems': elems, 'route': route, 'op': 'iter'}
 
 
 def check_iter(case):
@@ -500,8 +502,8 @@ def tag_iter(case, f):
 
 
 SUBS = [
-    Sub('merge', cases(), check, quick=4000, thorough=160000, tag=tag,
+    Sub('merge', cases(), check, quick=16000, thorough=160000, tag=tag,
         rule='provenance of every output cell of a merging operation over a kind pair'),
-    Sub('iterables', iter_cases(), check_iter, quick=2500, thorough=64000, tag=tag_iter,
+    Sub('iterables', iter_cases(), check_iter, quick=10000, thorough=64000, tag=tag_iter,
         rule='Python iterables of ints of every magnitude / floats / complex / str / None in every order through 10 constructor routes; every stored element equals the supplied one'),
 ]
